@@ -9,7 +9,7 @@ gotest() { if unshare -rn true 2>/dev/null; then unshare -rn sh -c "ip link set 
 PROP=$1; DIFF=$2; DEMO=$3; DEMODIR=${4:-.}; shift 4
 CHECKS=${@:-$PROP}
 WT=$(mktemp -d /tmp/mutwt-XXXXXX); rmdir $WT
-git -C /repo worktree add -q --detach $WT HEAD || exit 2
+git -C /repo worktree add -q --detach $WT ${BASE_REV:-HEAD} || exit 2
 trap "git -C /repo worktree remove --force $WT >/dev/null 2>&1" EXIT
 cd $WT
 if [ -n "$DEMO" ]; then
